@@ -1,5 +1,6 @@
 (* C10, part 1: next_done / join consume every non-daemon member exactly once, in the order in
    which the members finished; `completed` is the first consumed member that counts. *)
+From Coq Require Permutation.
 From AV Require Import Base Gen_curio TaskGroup TaskGroupProofs.
 
 (* the labels of the traces considered: members are spawned running (TaskGroup.spawn); adding an
@@ -198,6 +199,212 @@ Proof.
   cbn in Hf. apply andb_true_iff in Hf as [Hf1 Hf2]. apply IH; auto. apply step_ord; auto.
 Qed.
 
+(* ---------- exactly once, for EVERY label sequence: also tasks that had already finished when they
+   were added (constructor, add_task), which enter _done at the instant of the addition ---------- *)
+Definition yielded (g : tg) : list N := consumed g ++ doneq g ++ ondone_q (queue g).
+Definition fin_member (g : tg) (t : N) : Prop :=
+  exists m, get t (members g) = Some m /\ m_daemon m = false /\ is_fin m = true.
+
+Record Once (g : tg) : Prop := {
+  n_nodup : NoDup (yielded g);
+  n_in : forall t, In t (yielded g) <-> fin_member g t;
+  n_cbs : forall t m, get t (members g) = Some m -> is_fin m = false ->
+                      ondone_cbs (m_cbs m) = if m_daemon m then [] else [t] }.
+
+Lemma once_same g g' : Once g -> members g' = members g -> yielded g' = yielded g -> Once g'.
+Proof.
+  intros [O1 O2 O3] Hm Hy. split.
+  - now rewrite Hy.
+  - intros t. unfold fin_member. rewrite Hy, Hm. apply O2.
+  - intros t m. rewrite Hm. apply O3.
+Qed.
+
+Lemma once_set g t m m' : get t (members g) = Some m -> m_daemon m' = m_daemon m -> is_fin m' = is_fin m ->
+  ondone_cbs (m_cbs m') = ondone_cbs (m_cbs m) -> Once g -> Once (upd_members g (set t m' (members g))).
+Proof.
+  intros Em Hd Hf Hc [O1 O2 O3]. split.
+  - exact O1.
+  - intros t0. change (yielded (upd_members g (set t m' (members g)))) with (yielded g). rewrite O2.
+    unfold fin_member. cbn [members upd_members]. destruct (N.eqb_spec t t0) as [<-|Hne].
+    + rewrite get_set_same. split.
+      * intros (m0 & E & D & F). rewrite Em in E. injection E as <-. exists m'. rewrite Hd, Hf. auto.
+      * intros (m0 & E & D & F). injection E as <-. exists m. rewrite <- Hd, <- Hf. auto.
+    + now rewrite get_set_other.
+  - intros t0 m0. cbn [members upd_members]. destruct (N.eqb_spec t t0) as [<-|Hne].
+    + rewrite get_set_same. intros E F. injection E as <-. rewrite Hc, Hd. apply O3; auto. now rewrite <- Hf.
+    + rewrite get_set_other by auto. apply O3.
+Qed.
+
+Lemma cancel_member_once g t : Once g -> Once (cancel_member g t).
+Proof.
+  intros H. unfold cancel_member. destruct (get t (members g)) as [m|] eqn:Em; [|exact H].
+  destruct (m_status m) eqn:Es; try exact H. apply once_set with m; auto. unfold is_fin. cbn. now rewrite Es.
+Qed.
+
+Lemma register_pop_once g t : Once g -> Once (register_pop g t).
+Proof.
+  intros H. unfold register_pop. destruct (get t (members g)) as [m|] eqn:Em; [|exact H].
+  destruct (m_status m) eqn:Es.
+  1,2: apply once_set with m; auto; [unfold is_fin; cbn; now rewrite Es|cbn; rewrite ondone_cbs_app; cbn; apply app_nil_r].
+  apply (once_same g); auto. unfold yielded. cbn. rewrite ondone_q_app. cbn. now rewrite app_nil_r.
+Qed.
+
+Lemma cancel_tasks_once g ord : Once g -> Once (cancel_tasks g ord).
+Proof.
+  intros H. unfold cancel_tasks.
+  assert (F : forall (f : tg -> N -> tg), (forall g t, Once g -> Once (f g t)) -> forall l g, Once g -> Once (fold_left f l g)).
+  { intros f Hf. induction l as [|t l IH]; intros g0 H0; cbn; auto. }
+  apply F; [apply register_pop_once|]. apply F; [apply cancel_member_once|exact H].
+Qed.
+
+Lemma sem_release_yielded g : members (sem_release g) = members g /\ yielded (sem_release g) = yielded g.
+Proof.
+  destruct (sem_release_ord g) as (S1 & _ & S3 & S4 & S5). split; [exact S1|]. unfold yielded. now rewrite S3, S4, S5.
+Qed.
+
+Lemma on_done_once g t rest : Once g -> queue g = HCb (OnDone t) :: rest -> Once (on_done (upd_queue g rest) t).
+Proof.
+  intros H Hq. pose proof H as [O1 O2 O3].
+  assert (Hin : In t (yielded g)).
+  { unfold yielded. rewrite Hq. apply in_or_app. right. apply in_or_app. right. cbn. now left. }
+  apply O2 in Hin as (m & Em & Hd & Hf).
+  unfold on_done. cbn [members upd_queue]. rewrite Em, Hd.
+  match goal with |- Once (sem_release ?G) => destruct (sem_release_yielded G) as (S1 & S2) end.
+  apply (once_same g); auto. rewrite S2. unfold yielded. cbn. rewrite Hq. cbn. now rewrite <- !app_assoc.
+Qed.
+
+Lemma finish_member_once g t o : Once g -> Once (finish_member g t o).
+Proof.
+  intros H. unfold finish_member. destruct (get t (members g)) as [m|] eqn:Em; [|exact H].
+  destruct (is_fin m) eqn:Efin.
+  { unfold is_fin in Efin. destruct (m_status m); try discriminate. exact H. }
+  destruct H as [O1 O2 O3].
+  assert (Hnot : ~ In t (yielded g)).
+  { intros Hin. apply O2 in Hin as (m0 & E & _ & F). rewrite Em in E. injection E as <-. congruence. }
+  pose proof (O3 _ _ Em Efin) as Hcbs.
+  set (m1 := {| m_daemon := m_daemon m; m_status := Fin o; m_cbs := [] |}).
+  assert (Hget : forall t0, get t0 (set t m1 (members g)) = if N.eqb t t0 then Some m1 else get t0 (members g)).
+  { intros t0. destruct (N.eqb_spec t t0) as [<-|Hne]; [apply get_set_same|now apply get_set_other]. }
+  assert (Hres : Once (if m_daemon m then upd_queue (upd_members g (set t m1 (members g))) (queue g ++ map HCb (m_cbs m))
+            else let g2 := upd_queue (upd_members g (set t m1 (members g))) (queue g ++ map HCb (m_cbs m)) in
+            {| members := members g2; pending := pending g2; daemons := daemons g2; doneq := doneq g2;
+               semv := semv g2; joined := joined g2; completed := completed g2; pol := pol g2;
+               mode := mode g2; pc := pc g2; entered := entered g2; granted := granted g2; wake := wake g2;
+               must_cancel := must_cancel g2; jexc := jexc g2; unfinished := unfinished g2;
+               queue := queue g2; log_done := log_done g2 ++ [t]; consumed := consumed g2 |})).
+  { destruct (m_daemon m) eqn:Ed; split; unfold yielded, fin_member; cbn.
+    - rewrite ondone_q_app, ondone_q_map, Hcbs, app_nil_r. exact O1.
+    - intros t0. rewrite ondone_q_app, ondone_q_map, Hcbs, app_nil_r. fold (yielded g). rewrite O2, Hget.
+      unfold fin_member. destruct (N.eqb_spec t t0) as [<-|Hne]; [|reflexivity].
+      split; intros (m0 & E & D & F).
+      + rewrite Em in E. injection E as <-. congruence.
+      + injection E as <-. cbn in D. congruence.
+    - intros t0 m0. rewrite Hget. destruct (N.eqb_spec t t0) as [<-|Hne]; [|apply O3].
+      intros E F. injection E as <-. discriminate.
+    - rewrite ondone_q_app, ondone_q_map, Hcbs, !app_assoc. apply NoDup_app_snoc; [|now rewrite <- !app_assoc].
+      rewrite <- !app_assoc. exact O1.
+    - intros t0. rewrite ondone_q_app, ondone_q_map, Hcbs, !app_assoc, in_app_iff, <- !app_assoc. fold (yielded g).
+      rewrite O2, Hget. unfold fin_member. destruct (N.eqb_spec t t0) as [<-|Hne].
+      + split; [intros _; exists m1; auto|intros _; right; now left].
+      + split; [intros [H|[H|[]]]; [exact H|contradiction]|intros H; now left].
+    - intros t0 m0. rewrite Hget. destruct (N.eqb_spec t t0) as [<-|Hne]; [|apply O3].
+      intros E F. injection E as <-. discriminate. }
+  unfold is_fin in Efin. destruct (m_status m); try discriminate; exact Hres.
+Qed.
+
+Lemma nodup_insert {A} (a b c : list A) x : NoDup (a ++ b ++ c) -> ~ In x (a ++ b ++ c) -> NoDup (a ++ (b ++ [x]) ++ c).
+Proof.
+  intros Hn Hx. rewrite <- app_assoc. cbn. rewrite app_assoc.
+  apply (Permutation.Permutation_NoDup (l := x :: (a ++ b) ++ c)); [apply Permutation.Permutation_middle|].
+  rewrite <- app_assoc. now constructor.
+Qed.
+
+Lemma add_task_once g t d al : Once g -> Once (fst (add_task g t d (match al with Some o => Fin o | None => Run end))).
+Proof.
+  intros H. unfold add_task. destruct (add_refused_after_join && joined g); [exact H|].
+  destruct (get t (members g)) as [m0|] eqn:Em; [exact H|].
+  pose proof H as [O1 O2 O3].
+  assert (Hget : forall mm t0, get t0 (set t mm (members g)) = if N.eqb t t0 then Some mm else get t0 (members g)).
+  { intros mm t0. destruct (N.eqb_spec t t0) as [<-|Hne]; [apply get_set_same|now apply get_set_other]. }
+  assert (Hnot : ~ In t (yielded g)).
+  { intros Hin. apply O2 in Hin as (m1 & E & _). rewrite Em in E. discriminate. }
+  destruct al as [o|].
+  - (* a task that has already finished *)
+    cbn [fst]. unfold on_done. cbn [members upd_members]. rewrite get_set_same. cbn [m_daemon].
+    destruct d.
+    + split; unfold yielded, fin_member; cbn.
+      * exact O1.
+      * intros t0. fold (yielded g). rewrite O2, Hget. unfold fin_member.
+        destruct (N.eqb_spec t t0) as [<-|Hne]; [|reflexivity]. rewrite Em.
+        split; intros (m1 & E & D & F); [discriminate|]. injection E as <-. discriminate.
+      * intros t0 m1. rewrite Hget. destruct (N.eqb_spec t t0) as [<-|Hne]; [|apply O3].
+        intros E F. injection E as <-. discriminate.
+    + match goal with |- Once (sem_release ?G) => destruct (sem_release_yielded G) as (S1 & S2) end.
+      split.
+      * rewrite S2. unfold yielded. cbn. now apply nodup_insert.
+      * intros t0. rewrite S2. unfold fin_member. rewrite S1. unfold yielded. cbn.
+        rewrite Hget. rewrite !in_app_iff. cbn. destruct (N.eqb_spec t t0) as [<-|Hne].
+        -- split; [intros _; eexists; split; [reflexivity|auto]|intros _; right; left; right; now left].
+        -- pose proof (O2 t0) as Ht0. unfold yielded, fin_member in Ht0. rewrite !in_app_iff in Ht0. rewrite <- Ht0.
+           split; [intros [Hc|[[Hc|[Hc|[]]]|Hc]]; auto; contradiction|intros [Hc|[Hc|Hc]]; auto].
+      * intros t0 m1. rewrite S1. cbn. rewrite Hget. destruct (N.eqb_spec t t0) as [<-|Hne]; [|apply O3].
+        intros E F. injection E as <-. discriminate.
+  - destruct d; cbn [fst]; split; unfold yielded, fin_member; cbn; auto.
+    + intros t0. fold (yielded g). rewrite O2, Hget. unfold fin_member. destruct (N.eqb_spec t t0) as [<-|Hne]; [|reflexivity].
+      rewrite Em. split; intros (m1 & E & D & F); [discriminate|]. injection E as <-. discriminate.
+    + intros t0 m1. rewrite Hget. destruct (N.eqb_spec t t0) as [<-|Hne]; [|apply O3].
+      intros E F. now injection E as <-.
+    + intros t0. fold (yielded g). rewrite O2. unfold fin_member. destruct (N.eqb_spec t t0) as [<-|Hne].
+      * rewrite get_set_same, Em. split; intros (m1 & E & D & F); [discriminate|]. injection E as <-. discriminate.
+      * now rewrite !get_set_other.
+    + intros t0 m1. destruct (N.eqb_spec t t0) as [<-|Hne].
+      * rewrite get_set_same. intros E F. now injection E as <-.
+      * rewrite !get_set_other by auto. apply O3.
+Qed.
+
+Lemma consume_once g t rest : doneq g = t :: rest -> Once g -> Once (consume g t rest).
+Proof.
+  intros Hd H. apply (once_same g); auto. unfold yielded. cbn. rewrite Hd. cbn. now rewrite <- app_assoc.
+Qed.
+
+Lemma joiner_step_once g order : Once g -> Once (joiner_step g order).
+Proof.
+  apply joiner_step_pres2.
+  - intros g0 p en gr wk mc je unf jd H _. apply (once_same g0); auto.
+  - intros g0 sv H. apply (once_same g0); auto.
+  - intros g0 t rest. apply consume_once.
+  - intros g0 ord. apply cancel_tasks_once.
+Qed.
+
+Lemma step_once g l : Once g -> Once (step g l).
+Proof.
+  intros H. destruct l as [t d al|t o|t| | |h order]; cbn [step].
+  - apply add_task_once; exact H.
+  - apply finish_member_once; exact H.
+  - apply cancel_member_once; exact H.
+  - destruct (pc g); try exact H; destruct (wake g); try exact H;
+      apply (once_same g); auto; unfold yielded; cbn; rewrite ondone_q_app; cbn; now rewrite app_nil_r.
+  - unfold cancel_joiner. destruct (pc g); try exact H; destruct (wake g); try exact H; apply (once_same g); auto;
+      unfold yielded; cbn; rewrite ondone_q_app; cbn; now rewrite app_nil_r.
+  - destruct (queue g) as [|h0 rest] eqn:Eq; [exact H|]. cbv zeta. destruct h0 as [[t|t]|].
+    + cbn [run_cb]. apply on_done_once; auto.
+    + assert (H1 : Once (upd_queue g rest)) by (apply (once_same g); auto; unfold yielded; cbn; now rewrite Eq).
+      cbn [run_cb]. cbv zeta.
+      repeat match goal with |- context [match ?x with _ => _ end] => destruct x end;
+        apply (once_same (upd_queue g rest)); auto; unfold yielded; cbn; rewrite ?ondone_q_app; cbn; now rewrite ?app_nil_r.
+    + apply joiner_step_once. apply (once_same g); auto. unfold yielded. cbn. now rewrite Eq.
+Qed.
+
+(* every non-daemon member that has finished is yielded exactly once - whatever the labels *)
+Theorem reachable_once p m ls : Once (run p m ls).
+Proof.
+  unfold run. assert (H0 : Once (init p m)).
+  { split; unfold yielded, fin_member; cbn; [constructor|intros t; split; [intros []|intros (m0 & E & _); discriminate]|
+    intros t m0 E; discriminate]. }
+  revert H0. generalize (init p m). induction ls as [|l ls IH]; intros g Hg; cbn [fold_left]; [exact Hg|].
+  apply IH. apply step_once; auto.
+Qed.
+
 (* ---------- what a finished member was is never rewritten; the policy is fixed ---------- *)
 Definition MemStable (g g' : tg) : Prop := forall t, finished g t = true -> status g' t = status g t.
 
@@ -316,56 +523,56 @@ Proof.
   destruct (f' a); auto. apply IH. intros x Hx. apply H. now right.
 Qed.
 
-Lemma consumed_finished g : Ord g -> forall t, In t (consumed g) -> finished g t = true.
+Lemma consumed_finished g : Once g -> forall t, In t (consumed g) -> finished g t = true.
 Proof.
-  intros [O1 _ O3 _] t Hin. apply finished_get.
-  assert (Hl : In t (log_done g)) by (rewrite <- O1; apply in_or_app; now left).
-  apply O3 in Hl as (m & E & _ & F). eauto.
+  intros [_ O2 _] t Hin. apply finished_get.
+  assert (Hl : In t (yielded g)) by (apply in_or_app; now left).
+  apply O2 in Hl as (m & E & _ & F). eauto.
 Qed.
 
 Lemma counts_stable g g' : pol g' = pol g -> MemStable g g' ->
   forall t, finished g t = true -> counts g' t = counts g t.
 Proof. intros Hp Hs t Hf. unfold counts, ret_none. now rewrite Hp, (Hs t Hf). Qed.
 
-Lemma cf_stable g g' : Ord g -> CF g -> pol g' = pol g -> MemStable g g' ->
+Lemma cf_stable g g' : Once g -> CF g -> pol g' = pol g -> MemStable g g' ->
   completed g' = completed g -> consumed g' = consumed g -> CF g'.
 Proof.
   intros Ho Hc Hp Hs E1 E2. unfold CF. rewrite E1, E2, Hc. apply find_ext_in.
   intros t Hin. symmetry. apply counts_stable; auto. now apply consumed_finished.
 Qed.
 
-Lemma joiner_step_cf g order : Ord g -> CF g -> Ord (joiner_step g order) /\ CF (joiner_step g order).
+Lemma joiner_step_cf g order : Once g -> CF g -> Once (joiner_step g order) /\ CF (joiner_step g order).
 Proof.
-  intros Ho Hc. apply (joiner_step_pres2 (fun g' => Ord g' /\ CF g')); [| | | |split; assumption].
-  - intros g0 p en gr wk mc je unf jd [H1 H2] _. split; [apply (ord_same g0); auto|exact H2].
-  - intros g0 sv [H1 H2]. split; [apply (ord_same g0); auto|exact H2].
-  - intros g0 t rest Hd [H1 H2]. split; [now apply consume_ord|].
+  intros Ho Hc. apply (joiner_step_pres2 (fun g' => Once g' /\ CF g')); [| | | |split; assumption].
+  - intros g0 p en gr wk mc je unf jd [H1 H2] _. split; [apply (once_same g0); auto|exact H2].
+  - intros g0 sv [H1 H2]. split; [apply (once_same g0); auto|exact H2].
+  - intros g0 t rest Hd [H1 H2]. split; [now apply consume_once|].
     unfold CF in *. cbn [completed consumed consume upd_joiner upd_group]. rewrite find_snoc.
     change (counts (consume g0 t rest)) with (counts g0). rewrite <- H2.
     destruct (completed g0); [reflexivity|]. unfold counts. cbn [pol upd_group]. unfold is_object.
     change (ret_none (upd_group g0 (pending g0) (daemons g0) rest (semv g0)) t) with (ret_none g0 t).
     destruct (match pol g0 with PObject => true | _ => false end && ret_none g0 t); reflexivity.
-  - intros g0 ord [H1 H2]. split; [now apply cancel_tasks_ord|].
+  - intros g0 ord [H1 H2]. split; [now apply cancel_tasks_once|].
     destruct (cancel_tasks_fields g0 ord) as (E1 & E2 & E3).
     apply (cf_stable g0); auto. apply frame_memstable, cancel_tasks_frame.
 Qed.
 
-Lemma step_cf g l : fresh_label l = true -> Ord g -> CF g -> CF (step g l).
+Lemma step_cf g l : Once g -> CF g -> CF (step g l).
 Proof.
-  intros Hl Ho Hc. destruct (joiner_runs g l) eqn:Ej.
+  intros Ho Hc. destruct (joiner_runs g l) eqn:Ej.
   - destruct l as [| | | | |h order]; try discriminate. cbn in Ej. cbn [step].
     destruct (queue g) as [|[c|] rest] eqn:Eq; try discriminate. cbv zeta.
-    apply joiner_step_cf; [apply (ord_same g); auto; cbn; now rewrite Eq|exact Hc].
+    apply joiner_step_cf; [apply (once_same g); auto; unfold yielded; cbn; now rewrite Eq|exact Hc].
   - destruct (step_frame g l) as (H1 & H2 & H3). destruct (H3 Ej) as [E1 E2]. apply (cf_stable g); auto.
 Qed.
 
-Theorem reachable_cf p m ls : forallb fresh_label ls = true -> CF (run p m ls).
+Theorem reachable_cf p m ls : CF (run p m ls).
 Proof.
-  intros Hf. unfold run.
-  assert (H : Ord (fold_left step ls (init p m)) /\ CF (fold_left step ls (init p m))).
-  { assert (H0 : Ord (init p m) /\ CF (init p m)) by (split; [apply (reachable_ord p m [] eq_refl)|reflexivity]).
-    revert H0 Hf. generalize (init p m). induction ls as [|l ls IH]; intros g Hg Hf; cbn [fold_left]; [exact Hg|].
-    cbn in Hf. apply andb_true_iff in Hf as [Hf1 Hf2]. apply IH; auto. destruct Hg as [Ho Hc].
-    split; [now apply step_ord|now apply step_cf]. }
+  unfold run.
+  assert (H : Once (fold_left step ls (init p m)) /\ CF (fold_left step ls (init p m))).
+  { assert (H0 : Once (init p m) /\ CF (init p m)) by (split; [apply (reachable_once p m [])|reflexivity]).
+    revert H0. generalize (init p m). induction ls as [|l ls IH]; intros g Hg; cbn [fold_left]; [exact Hg|].
+    apply IH; auto. destruct Hg as [Ho Hc].
+    split; [now apply step_once|now apply step_cf]. }
   apply H.
 Qed.
